@@ -638,3 +638,52 @@ where
         f();
     }
 }
+
+/// Thin wrapper used by the out-of-tree verification harness: runs the real line scanner
+/// over `text` and returns the character events it saw and the errors it recorded.
+#[cfg(rust_lang_rustfmt_verif)]
+pub mod verif_hooks {
+    use super::*;
+    use crate::comment::CharClasses;
+
+    /// (events as (char, kind index), errors as (line, kind tag, found, max, is_comment,
+    /// is_string), (line_len, cur_line, newline_count)); kind tag 0 = LineOverflow,
+    /// 1 = TrailingWhitespace, 2 = other.
+    pub fn format_lines_scan(
+        text: &str,
+        config: &Config,
+        skipped: &[(usize, usize)],
+    ) -> (
+        Vec<(u32, u8)>,
+        Vec<(usize, u8, usize, usize, bool, bool)>,
+        (usize, usize, usize),
+    ) {
+        let events = CharClasses::new(text.chars())
+            .map(|(kind, c)| (c as u32, kind as u8))
+            .collect();
+        let name = FileName::Stdin;
+        let mut formatter = FormatLines::new(&name, skipped, config);
+        let mut owned = text.to_owned();
+        formatter.iterate(&mut owned);
+        let errors = formatter
+            .errors
+            .iter()
+            .map(|e| match e.kind {
+                ErrorKind::LineOverflow(found, max) => {
+                    (e.line, 0, found, max, e.is_comment, e.is_string)
+                }
+                ErrorKind::TrailingWhitespace => (e.line, 1, 0, 0, e.is_comment, e.is_string),
+                _ => (e.line, 2, 0, 0, e.is_comment, e.is_string),
+            })
+            .collect();
+        (
+            events,
+            errors,
+            (
+                formatter.line_len,
+                formatter.cur_line,
+                formatter.newline_count,
+            ),
+        )
+    }
+}
